@@ -693,6 +693,34 @@ func Run(tier string) int {
 	}
 	r.Dim("wide_containers", widths)
 
+	// (h) long arrays of numbers: the formatted text crosses every power of two
+	// up to 32 KiB (output buffers of the formatter), alone and mixed
+	{
+		numAtoms := []pdf.Object{pdf.Integer(7), pdf.Integer(1234), pdf.Integer(-123456789), pdf.Real(0.5), pdf.Real(-1234.5678)}
+		lens := []int{500, 1000, 2000, 5000}
+		r.Dim("long_number_arrays", fmt.Sprintf("%d numeric atoms (and every ordered pair alternating) x lengths %v", len(numAtoms), lens))
+		r.Par(len(numAtoms)*len(numAtoms), func(ij int) {
+			i, j := ij/len(numAtoms), ij%len(numAtoms)
+			for _, n := range lens {
+				a := make(pdf.Array, n)
+				for k := range a {
+					if k%2 == 0 {
+						a[k] = numAtoms[i]
+					} else {
+						a[k] = numAtoms[j]
+					}
+				}
+				// the position is part of the value, so that a dropped or merged element is visible
+				a[n/2] = pdf.Integer(int64(n))
+				for _, opt := range []pdf.OutputOptions{0, pdf.OptPretty, pdf.OptContentStream} {
+					rn.one("long-numbers", opt, a)
+					rn.one("long-numbers", opt, pdf.Dict{"A": a, "B": pdf.Name("after")})
+				}
+				r.DistinctS(fmt.Sprintf("ln%d,%d,%d", i, j, n))
+			}
+		})
+	}
+
 	return r.Finish()
 }
 
